@@ -265,3 +265,15 @@ def run(model: Model, rep: Report) -> None:
     from .c03 import png_filters_rule
 
     png_filters_rule(model, rep, "C18-R12")
+
+
+_run_r1_r17 = run
+
+
+def run(model: Model, rep: Report) -> None:  # noqa: F811
+    """C18-R18 = C03-R8: the byte-oriented decoders an image's filter chain may name (RunLength, ASCIIHex, ASCII85) - the
+    exported samples are what these return."""
+    from .c03 import _simple_decoders
+
+    _run_r1_r17(model, rep)
+    _simple_decoders(model, rep, "C18-R18")
